@@ -200,6 +200,10 @@ type World struct {
 	lastRedo   *BlockRecord
 	Aborted    bool // the run cannot go on for a reason that is another property's symptom
 	LastSimGas uint64
+	// LastSimSnap: the predicted state after a tx prefix (only while generating; a replay executes the
+	// same dry run but has no use for the observation)
+	LastSimSnap *Snapshot
+	Generating  bool
 	LastSimOK  bool
 	Trace      *Trace  // the trace being generated / replayed (read by C10)
 	Executed   []*Step // steps executed so far
@@ -600,12 +604,22 @@ func (w *World) execTx(st *Step) {
 // exactly the same order (hidden state in keepers would otherwise make a
 // violation found while generating unreproducible).
 func (w *World) execSim(st *Step) {
-	w.LastSimGas, w.LastSimOK = 0, false
+	w.LastSimGas, w.LastSimOK, w.LastSimSnap = 0, false, nil
 	if st.Tx == nil {
 		return
 	}
 	msgs, sigFail, err := decodeTx(st.Tx)
 	if err != nil || sigFail {
+		return
+	}
+	if st.SimSnap {
+		// the client predicts the state after the first messages of its tx to build the next one
+		ctx, ok := w.Chain.DryRunCtx(msgs)
+		w.LastSimOK = ok
+		if ok && w.Generating {
+			w.LastSimSnap = w.Obs.TakeCtx(w.Chain, ctx)
+		}
+		w.Probe("tx_prefix_predictions")
 		return
 	}
 	w.LastSimGas, w.LastSimOK = w.Chain.DryRunGas(msgs)
